@@ -169,6 +169,7 @@ def replay_chunk(args):
     fp = use_repo()
     out = {"jid": jid, "viol": [], "evals": 0}
     d = os.path.join(base, "a%d" % jid)
+    shutil.rmtree(d, ignore_errors=True)      # a re-run of this job (after a time-out) starts clean
     os.makedirs(d)
     try:
         sets = {s: make_dataset(fp, d, rowcounts, s) for s in ("simple", "hive")}
